@@ -245,6 +245,8 @@ def _vac_probe(fn_text_with_contract: str, name: str, requires: list[str], in_im
             reqs = [re.sub(r"\*\s*" + nm + r"\b", nm, r) for r in reqs]
         if "impl " in ty or "dyn " in ty:
             return None
+        if ty.lstrip().startswith("["):      # `&mut [T]`: an unsized slice cannot be taken by value; a shared slice has the same view
+            ty = "&" + ty
         new_params.append(f"{nm}: {ty}")
     generics = re.sub(r"'[a-z_]+\s*,?\s*", "", generics)
     if generics.replace(" ", "") == "<>":
